@@ -1,3 +1,179 @@
-(* C15 - placeholder while the proofs are written *)
-From Coq Require Import ZArith List.
-From ScV Require Import Base.CInt C15.RangesModel.
+(* C15 - rank ranges cover every peer and decode symmetrically (src/sc_ranges.c).
+   Statements about the executable model coq/C15/RangesModel.v, which checks/C15.py ties to the compiled
+   sc_ranges_compute / sc_ranges_decode / sc_ranges_adaptive on every run.  All statements are for every number of
+   processes, every indicator vector (any integers, 0 = no peer), every own rank and every budget num_ranges >= 1.
+   This file contains only statements, `exact` proofs and Print Assumptions.
+
+   Vocabulary (C15/RangesModel.v, RangesGaps.v, RangesInvert.v, RangesDecode.v, RangesProps.v):
+     peers procs rank         the j in [0, P) with procs[j] <> 0 and j <> rank, ascending        (C15_peers)
+     compute_call procs rank nr   sc_ranges_compute called with first_peer/last_peer = the extreme peers or (P, -1)
+     nranges / ranges_array   its return value / the ranges array as num_ranges pairs
+     filled                   the first `nranges` pairs of the array
+     sep a b                  snd a + 1 < fst b  (b starts at least two after the end of a)
+     is_gap L g               g = (s, e), s <= e, s-1 and e+1 are members of L, no member of L in [s, e]
+     omitted rs               the runs (snd a + 1, fst b - 1) between consecutive ranges a, b of rs
+     absorbed rs a            the run a lies inside one range of rs
+     glen g                   snd g - fst g + 1
+     wf_table tbl             every row: ascending separated ranges inside [0, P), then (only) a negative start *)
+From Coq Require Import ZArith List Bool Sorting.Sorted.
+From ScV Require Import Base.CInt C15.RangesModel C15.RangesGaps C15.RangesInvert C15.RangesCompute C15.RangesDecode
+  C15.RangesAdaptive C15.RangesProps.
+Import ListNotations.
+Local Open Scope Z_scope.
+
+(* --- who the peers are ------------------------------------------------------------------------------------------ *)
+Theorem C15_peers : forall procs rank j,
+  (In j (peers procs rank) <-> 0 <= j < Z.of_nat (length procs) /\ proc procs j <> 0 /\ j <> rank)
+  /\ StronglySorted Z.lt (peers procs rank).
+Proof. intros; split; [exact (peers_spec procs rank j)|exact (peers_ascending procs rank)]. Qed.
+Print Assumptions C15_peers.
+
+(* --- sc_ranges_compute ------------------------------------------------------------------------------------------ *)
+(* at most num_ranges ranges; the array has num_ranges entries; the unused ones are (-1, -2) *)
+Theorem C15_compute_shape : forall procs rank nr, 1 <= nr ->
+  length (ranges_array procs rank nr) = Z.to_nat nr /\ 0 <= nranges procs rank nr <= nr
+  /\ skipn (Z.to_nat (nranges procs rank nr)) (ranges_array procs rank nr)
+     = repeat (-1, -2) (Z.to_nat nr - Z.to_nat (nranges procs rank nr)).
+Proof. exact compute_shape. Qed.
+Print Assumptions C15_compute_shape.
+
+(* the number of ranges: none without peers, else one more than the number of gaps, capped by the budget *)
+Theorem C15_compute_count : forall procs rank nr, 1 <= nr ->
+  nranges procs rank nr = match peers procs rank with
+                          | [] => 0
+                          | _ => Z.min (Z.of_nat (length (gaps_of (peers procs rank))) + 1) nr
+                          end.
+Proof. exact compute_count. Qed.
+Print Assumptions C15_compute_count.
+
+(* the first range starts at the first peer, the last range ends at the last peer *)
+Theorem C15_compute_ends : forall procs rank nr, 1 <= nr -> peers procs rank <> [] ->
+  filled procs rank nr <> []
+  /\ fst (hd (-1, -2) (filled procs rank nr)) = hd 0 (peers procs rank)
+  /\ snd (last (filled procs rank nr) (-1, -2)) = last (peers procs rank) 0.
+Proof. exact compute_ends. Qed.
+Print Assumptions C15_compute_ends.
+
+(* every range is non-empty and begins and ends at a peer *)
+Theorem C15_compute_members : forall procs rank nr, 1 <= nr -> forall r, In r (filled procs rank nr) ->
+  fst r <= snd r /\ In (fst r) (peers procs rank) /\ In (snd r) (peers procs rank).
+Proof. exact compute_members. Qed.
+Print Assumptions C15_compute_members.
+
+(* sorted and pairwise separated: a later range starts at least two after an earlier one ends, and what lies
+   between consecutive ranges is a non-empty run without any peer *)
+Theorem C15_compute_sorted_separated : forall procs rank nr, 1 <= nr ->
+  StronglySorted sep (filled procs rank nr)
+  /\ forall g, In g (omitted (filled procs rank nr)) -> is_gap (peers procs rank) g.
+Proof. exact compute_separated. Qed.
+Print Assumptions C15_compute_sorted_separated.
+
+Theorem C15_compute_sorted_by_index : forall procs rank nr, 1 <= nr ->
+  forall i j, (i < j < length (filled procs rank nr))%nat ->
+  snd (nth i (filled procs rank nr) (-1, -2)) + 1 < fst (nth j (filled procs rank nr) (-1, -2)).
+Proof. exact compute_sorted_nth. Qed.
+Print Assumptions C15_compute_sorted_by_index.
+
+(* together the ranges contain every peer *)
+Theorem C15_compute_covers : forall procs rank nr, 1 <= nr -> forall p, In p (peers procs rank) ->
+  exists r, In r (filled procs rank nr) /\ fst r <= p <= snd r.
+Proof. exact compute_covers. Qed.
+Print Assumptions C15_compute_covers.
+
+(* the gaps left out are the longest runs of non-peers: every omitted gap is at least as long as every gap
+   of the peer list that lies inside a range *)
+Theorem C15_compute_longest_gaps_omitted : forall procs rank nr, 1 <= nr -> forall o a,
+  In o (omitted (filled procs rank nr)) -> is_gap (peers procs rank) a ->
+  (exists r, In r (filled procs rank nr) /\ fst r <= fst a /\ snd a <= snd r) -> glen a <= glen o.
+Proof. exact compute_longest_omitted. Qed.
+Print Assumptions C15_compute_longest_gaps_omitted.
+
+(* --- sc_ranges_decode -------------------------------------------------------------------------------------------- *)
+Theorem C15_decode_symmetric : forall tbl p q, wf_table tbl -> 0 <= p < Z.of_nat (length tbl) -> p <> q ->
+  (In q (receivers tbl p) <-> In p (senders tbl q)).
+Proof. exact decode_symmetric. Qed.
+Print Assumptions C15_decode_symmetric.
+
+(* self excluded, outputs ascending and inside [0, P) *)
+Theorem C15_decode_outputs : forall tbl p, wf_table tbl ->
+  ~ In p (receivers tbl p) /\ ~ In p (senders tbl p)
+  /\ StronglySorted Z.lt (receivers tbl p) /\ StronglySorted Z.lt (senders tbl p)
+  /\ (forall x, In x (receivers tbl p) -> 0 <= x < Z.of_nat (length tbl))
+  /\ (forall x, In x (senders tbl p) -> 0 <= x < Z.of_nat (length tbl)).
+Proof. exact decode_outputs. Qed.
+Print Assumptions C15_decode_outputs.
+
+(* the receivers are exactly the members of the own ranges other than the rank itself *)
+Theorem C15_decode_receivers : forall tbl p q,
+  In q (receivers tbl p) <-> q <> p /\ exists g, In g (prefix (row_of tbl p)) /\ fst g <= q <= snd g.
+Proof. exact receivers_spec. Qed.
+Print Assumptions C15_decode_receivers.
+
+(* --- sc_ranges_adaptive = compute + Allreduce (MAX) + Allgather --------------------------------------------------- *)
+(* every rank holds the same maxima and the same global table; its own part is sc_ranges_compute of its vector *)
+Theorem C15_adaptive_same_on_all_ranks : forall vecs nr r r',
+  shared_part (adaptive_at vecs nr r) = shared_part (adaptive_at vecs nr r').
+Proof. exact adaptive_agree. Qed.
+Print Assumptions C15_adaptive_same_on_all_ranks.
+
+Theorem C15_adaptive_own_ranges : forall vecs nr r, (r < length vecs)%nat ->
+  fst (fst (fst (adaptive_at vecs nr r))) = compute_call (nth r vecs []) (Z.of_nat r) nr.
+Proof. exact adaptive_own. Qed.
+Print Assumptions C15_adaptive_own_ranges.
+
+(* the two maxima are attained upper bounds of the peer counts and of the numbers of ranges *)
+Theorem C15_adaptive_maxima : forall vecs nr, 1 <= nr -> (forall v, In v vecs -> length v = length vecs) ->
+  let maxpeers := snd (fst (fst (adaptive_all vecs nr))) in
+  let maxwin := snd (fst (adaptive_all vecs nr)) in
+  (forall r, (r < length vecs)%nat -> nranges (nth r vecs []) (Z.of_nat r) nr <= maxwin)
+  /\ (maxwin = 0 \/ exists r, (r < length vecs)%nat /\ nranges (nth r vecs []) (Z.of_nat r) nr = maxwin)
+  /\ (forall r, (r < length vecs)%nat -> peer_count (nth r vecs []) (Z.of_nat r) <= maxpeers)
+  /\ (maxpeers = 0 \/ exists r, (r < length vecs)%nat /\ peer_count (nth r vecs []) (Z.of_nat r) = maxpeers)
+  /\ 0 <= maxwin <= nr.
+Proof. exact adaptive_maxima_exact. Qed.
+Print Assumptions C15_adaptive_maxima.
+
+(* the global table: one row per rank, each the first maxwin entries of that rank's array *)
+Theorem C15_adaptive_table : forall vecs nr, 1 <= nr -> (forall v, In v vecs -> length v = length vecs) ->
+  let maxwin := snd (fst (adaptive_all vecs nr)) in
+  let tbl := snd (adaptive_all vecs nr) in
+  length tbl = length vecs /\ forall r, (r < length vecs)%nat ->
+    nth r tbl [] = firstn (Z.to_nat maxwin) (ranges_array (nth r vecs []) (Z.of_nat r) nr)
+    /\ length (nth r tbl []) = Z.to_nat maxwin.
+Proof. exact adaptive_table_rows. Qed.
+Print Assumptions C15_adaptive_table.
+
+(* ... it satisfies the precondition of the decode theorems, and decoding it finds every peer *)
+Theorem C15_adaptive_table_decodable : forall vecs nr, 1 <= nr -> (forall v, In v vecs -> length v = length vecs) ->
+  wf_table (snd (adaptive_all vecs nr)).
+Proof. exact adaptive_table_wf. Qed.
+Print Assumptions C15_adaptive_table_decodable.
+
+Theorem C15_adaptive_peers_are_receivers : forall vecs nr, 1 <= nr -> (forall v, In v vecs -> length v = length vecs) ->
+  forall p q, 0 <= p < Z.of_nat (length vecs) ->
+  In q (peers (nth (Z.to_nat p) vecs []) p) -> In q (receivers (snd (adaptive_all vecs nr)) p).
+Proof. exact adaptive_peers_are_receivers. Qed.
+Print Assumptions C15_adaptive_peers_are_receivers.
+
+(* --- the hypotheses are satisfiable, the statements are not vacuous ------------------------------------------------ *)
+(* P = 10, own rank 4 (its entry does not count), peers 1 2 5 9, gaps 3..4 and 6..8: with a budget of 2 the longer gap is left out *)
+Example C15_ex_compute :
+  peers [0; 1; 7; 0; 1; -1; 0; 0; 0; 2] 4 = [1; 2; 5; 9]
+  /\ compute_call [0; 1; 7; 0; 1; -1; 0; 0; 0; 2] 4 3 = (3, [(1, 2); (5, 5); (9, 9)])
+  /\ compute_call [0; 1; 7; 0; 1; -1; 0; 0; 0; 2] 4 2 = (2, [(1, 5); (9, 9)])
+  /\ compute_call [0; 1; 7; 0; 1; -1; 0; 0; 0; 2] 4 1 = (1, [(1, 9)])
+  /\ compute_call [0; 1; 7; 0; 1; -1; 0; 0; 0; 2] 4 5 = (3, [(1, 2); (5, 5); (9, 9); (-1, -2); (-1, -2)])
+  /\ compute_call [0; 0; 0] 1 2 = (0, [(-1, -2); (-1, -2)]).
+Proof. vm_compute. repeat split. Qed.
+
+Example C15_ex_adaptive :
+  let vecs := [[0; 1; 0; 1]; [1; 0; 0; 0]; [0; 0; 0; 0]; [1; 1; 0; 0]] in
+  (forall v, In v vecs -> length v = length vecs)
+  /\ adaptive_all vecs 2
+     = ([(2, [(1, 1); (3, 3)]); (1, [(0, 0); (-1, -2)]); (0, [(-1, -2); (-1, -2)]); (1, [(0, 1); (-1, -2)])],
+        2, 2, [[(1, 1); (3, 3)]; [(0, 0); (-1, -2)]; [(-1, -2); (-1, -2)]; [(0, 1); (-1, -2)]])
+  /\ receivers (snd (adaptive_all vecs 2)) 0 = [1; 3] /\ senders (snd (adaptive_all vecs 2)) 0 = [1; 3]
+  /\ receivers (snd (adaptive_all vecs 2)) 1 = [0] /\ senders (snd (adaptive_all vecs 2)) 1 = [0; 3].
+Proof.
+  cbv zeta. split; [intros v [<-|[<-|[<-|[<-|[]]]]]; reflexivity|]. vm_compute. repeat split.
+Qed.
